@@ -27,7 +27,17 @@ Lemma grid_event b g raw :
   c06_event_ok g raw (axis_msgs g raw) = true.
 Proof.
   intros Hb Hg Hr. pose proof (grid_config b g Hb Hg) as H. unfold c06_config_ok in H.
-  apply andb_true_iff in H. destruct H as [H _]. rewrite forallb_forall in H. apply H. apply in_raws. exact Hr.
+  apply andb_true_iff in H. destruct H as [H _]. rewrite forallb_forall in H.
+  specialize (H raw (in_raws g raw Hr)). apply andb_true_iff in H. tauto.
+Qed.
+
+Lemma grid_wf b g raw :
+  In b dz_bits -> In g (grid_for (f_of_bits b)) -> (q_mn g <= raw <= q_mx g)%Z ->
+  forallb wf_msgb (axis_msgs g raw) = true.
+Proof.
+  intros Hb Hg Hr. pose proof (grid_config b g Hb Hg) as H. unfold c06_config_ok in H.
+  apply andb_true_iff in H. destruct H as [H _]. rewrite forallb_forall in H.
+  specialize (H raw (in_raws g raw Hr)). apply andb_true_iff in H. tauto.
 Qed.
 
 Lemma grid_monotone b g :
